@@ -46,6 +46,7 @@ def proto_runs(mode):
             runs += [("main", ["--mode", mode, "--a", "2", "--mtu", "576", "--wifi", "1"])]
         if mode in ("c02", "c03"):      # the same closure on the responder's second interface
             runs += [("main", ["--mode", mode, "--b", "1", "--mtu", "1500", "--wifi", str(w)]) for w in (0, 1)]
+            runs += [("main", ["--mode", mode, "--b", "1", "--mtu", "576", "--wifi", "0"])]      # ... whose first interface has the larger MTU
         return runs
     return f
 
@@ -73,7 +74,7 @@ def c06_runs(tier):
 
 def c10_runs(tier):
     mt = [576, 1500] if tier == "thorough" else [1500]
-    return [("main", ["--mode", "c10", "--mtu", str(m), "--wifi", "0", "--a", str(a)]) for m in mt for a in (0, 1, 2, 3)] + [("main", ["--mode", "c10flood"])]
+    return [("main", ["--mode", "c10", "--mtu", str(m), "--wifi", "0", "--a", str(a)]) for m in mt for a in (0, 1, 2, 3, 4)] + [("main", ["--mode", "c10flood"])]
 
 
 def c13_runs(tier):
@@ -107,10 +108,10 @@ def c16_runs(tier):
 def c12_runs(tier):
     th = tier == "thorough"
     runs = []
-    for b in (0, 1, 2, 3):
+    for k, b in enumerate((0, 4, 2, 3)):      # clock origins: 1 000 000 ms; 0 ms; 3 000 500 ms (other phase); 2^32 - 2296 ms
         # thorough: the flow runs at depth 12 need up to 16 GB each; two of them per stage keep the peak well below the 62 GB of the sandbox
-        runs.append(("main", ["--mode", "narrow", "--depth", "14" if th else "11", "--b", str(b)], (b // 2) if th else 0))
-        runs.append(("main", ["--mode", "flow", "--depth", "12" if th else "10", "--b", str(b)], (b // 2) if th else 0))
+        runs.append(("main", ["--mode", "narrow", "--depth", "14" if th else "11", "--b", str(b)], (k // 2) if th else 0))
+        runs.append(("main", ["--mode", "flow", "--depth", "12" if th else "10", "--b", str(b)], (k // 2) if th else 0))
     runs.append(("main", ["--mode", "map", "--depth", "12" if th else "9"]))
     runs.append(("main", ["--mode", "wide", "--depth", "6" if th else "5"]))
     for a in range(1, 8):
@@ -124,7 +125,7 @@ def c12_post(configs):
     by = {}
     for c in configs:
         args = c["args"].split()
-        if "--b" in args and args[args.index("--b") + 1] in ("0", "1", "3"):
+        if "--b" in args and args[args.index("--b") + 1] in ("0", "1", "3", "4"):
             i = args.index("--b")
             key = " ".join(args[:i] + args[i + 2:])
             by.setdefault(key, []).append(c["extra"].get("origin_signature"))
@@ -203,6 +204,7 @@ def c18_runs(tier):
 def c17_runs(tier):
     th = tier == "thorough"
     runs = [("plain", ["--mode", "seq", "--mtu", "1500", "--wifi", "0"]), ("plain", ["--mode", "seq", "--mtu", "576", "--wifi", "1"]),
+            ("plain", ["--mode", "seq", "--mtu", "576", "--wifi", "0", "--a", "1"]),      # B's MTU getter fails while A reports a small MTU
             ("plain", ["--mode", "seq3", "--mtu", "1500", "--wifi", "0"])]
     np1, np2 = 4, 10
     for i in range(np1):
